@@ -59,6 +59,7 @@ def register(reg):
     register_primitive_samplers(reg)
     register_generic_samplers(reg)
     register_grid(reg)
+    register_polygon_sampling(reg)
 
 
 # ===================================================================================================
@@ -833,3 +834,310 @@ class LazyEnv(dict):
         if k == "round":
             return py_round(None)
         raise KeyError(k)
+
+
+# ===================================================================================================
+# PolygonalRegion: triangulation, sampling data, sampler
+
+GEO = "scenic.core.geometry"
+
+
+def polygon_catalogue():
+    """(group, name, exterior, holes) -- triangles, convex and concave quadrilaterals in every vertex rotation and both
+    windings, larger concave polygons, polygons with holes."""
+    out = []
+
+    def variants(group, name, ext, holes=()):
+        n = len(ext)
+        for w, pts in (("ccw", list(ext)), ("cw", list(reversed(ext)))):
+            for r in range(n):
+                out.append((group, f"{name}/{w}/start{r}", pts[r:] + pts[:r], [list(h) for h in holes]))
+
+    variants("triangle", "right triangle", [(0, 0), (4, 0), (0, 3)])
+    variants("triangle", "sliver", [(0, 0), (10, 0.5), (5, 0.4)])
+    variants("convex quadrilateral", "rectangle", [(0, 0), (4, 0), (4, 2), (0, 2)])
+    variants("convex quadrilateral", "kite", [(0, 0), (3, -1), (7, 0), (3, 1)])
+    variants("convex quadrilateral", "trapezoid", [(0, 0), (6, 0), (4, 3), (1, 3)])
+    variants("concave quadrilateral", "dart", [(0, 0), (4, 2), (0, 4), (1.5, 2)])
+    variants("concave quadrilateral", "chevron", [(0, 0), (5, 1), (10, 0), (5, 6)])
+    variants("concave quadrilateral", "thin arrowhead", [(0, 0), (1, 5), (2, 0), (1, 4.5)])
+    variants("larger polygon", "pentagon", [(0, 0), (4, 0), (5, 3), (2, 5), (-1, 3)])
+    variants("larger polygon", "L-shape", [(0, 0), (4, 0), (4, 1), (1, 1), (1, 4), (0, 4)])
+    variants("larger polygon", "star", [(0, 3), (1, 1), (3, 1), (1.5, -0.5), (2, -3), (0, -1.5), (-2, -3), (-1.5, -0.5), (-3, 1), (-1, 1)])
+    variants("polygon with holes", "square with a square hole", [(0, 0), (6, 0), (6, 6), (0, 6)], [[(2, 2), (2, 4), (4, 4), (4, 2)]])
+    variants("polygon with holes", "square with two holes", [(0, 0), (8, 0), (8, 8), (0, 8)], [[(1, 1), (1, 3), (3, 3), (3, 1)], [(5, 4), (5, 7), (7, 7), (6, 4)]])
+    variants("polygon with holes", "dart with a triangular hole", [(0, 0), (8, 4), (0, 8), (3, 4)], [[(4, 3.5), (4, 4.5), (5, 4)]])
+    return out
+
+
+def check_real_polygon(ext, holes, z=2.5, samples=120, seed=7):
+    """Exact checks (shapely) of the REAL triangulatePolygon / PolygonalRegion._samplingData / uniformPointInner on one
+    polygon.  Returns {clause: None | text}."""
+    import itertools
+    import random
+
+    import shapely
+    import shapely.geometry
+
+    from scenic.core.geometry import triangulatePolygon
+    from scenic.core.regions import PolygonalRegion
+
+    P = shapely.geometry.Polygon(ext, holes)
+    res = dict.fromkeys(("triangles_inside_the_polygon", "triangle_areas_sum_to_the_polygon_area", "cumulative_weights_are_prefix_sums_of_the_triangle_areas", "sampled_points_lie_in_the_polygon_at_height_z"))
+    tol = 1e-9 * max(1.0, P.area)
+    tris = list(triangulatePolygon(P))
+    out = [t for t in tris if t.difference(P).area > tol]
+    if out:
+        res["triangles_inside_the_polygon"] = f"triangle {list(out[0].exterior.coords)[:-1]} sticks out of the polygon by area {out[0].difference(P).area:.6g}"
+    total = sum(t.area for t in tris)
+    if abs(total - P.area) > tol:
+        res["triangle_areas_sum_to_the_polygon_area"] = f"{len(tris)} triangles of total area {total:.6g}, polygon area {P.area:.6g}"
+    R = PolygonalRegion(polygon=P, z=z)
+    tb, cum = R._samplingData
+    pref = list(itertools.accumulate(t.area for t, _ in tb))
+    if len(tb) != len(cum) or any(abs(a - b) > tol for a, b in zip(cum, pref)) or any(tuple(b) != tuple(t.bounds) for t, b in tb) or abs((cum[-1] if cum else 0) - P.area) > tol:
+        res["cumulative_weights_are_prefix_sums_of_the_triangle_areas"] = f"cumulative weights {list(cum)} vs prefix sums {pref} (polygon area {P.area:.6g})"
+    random.seed(seed)
+    grown = P.buffer(1e-9)
+    for _ in range(samples):
+        pt = R.uniformPointInner()
+        if pt.z != z or not grown.contains(shapely.geometry.Point(pt.x, pt.y)):
+            res["sampled_points_lie_in_the_polygon_at_height_z"] = f"drew {tuple(pt)} from the region at z={z}: outside the polygon by {P.distance(shapely.geometry.Point(pt.x, pt.y)):.4g}"
+            break
+    return res
+
+
+def register_polygon_sampling(reg):
+    # ---------------------------------------------------------------- triangulatePolygon (+ triangulatePolygon_mapbox, inlined)
+    def setup_t(I, env):
+        eng = I.eng
+        n = 3 + eng.choose(3, "exterior ring: 3 / 4 / 5 vertices")
+        h = eng.choose(2, "no hole / one triangular hole")
+        ext = [(eng.fresh_real(f"v{i}.x"), eng.fresh_real(f"v{i}.y")) for i in range(n)]
+        holes = [[(eng.fresh_real(f"hole.v{i}.x"), eng.fresh_real(f"hole.v{i}.y")) for i in range(3)]] if h else []
+        eng.input_syms.append(("vertices", C.Const(None), n))
+        eng.input_syms.append(("holes", C.Const(None), h))
+        P = MS.ring_polygon(I, ext, holes)
+        env.vars.update(polygon=P, _ext=ext, _holes=holes)
+
+    def select(rows, idx, col):
+        out = rows[0][col]
+        for k in range(1, len(rows)):
+            out = sv_ite(compare("==", idx, k), rows[k][col], out)
+        return out
+
+    def post_t(I, env, outcome):
+        eng = I.eng
+        oname = "geometry.triangulatePolygon"
+        if outcome[0] != "return":
+            return
+        res = outcome[1]
+        ext, holes = env.vars["_ext"], env.vars["_holes"]
+        tris = I.iterate(res) if not isinstance(res, (int, float, SV, type(None))) else None
+        ok = tris is not None and all(MS.is_geom(t) and "_tri" in t.fields for t in tris)
+        eng.check(f"{oname}#ensures.returns_triangles", ok)
+        if not ok:
+            return
+        calls = getattr(MS.world(I), "earcut_calls", [])
+        # Only the trusted kernel (E-earcut) is known to cut a polygon into triangles that lie inside it and tile it:
+        # the triangles returned must be exactly its answer for exactly this polygon.
+        allv = list(ext) + [p for hl in holes for p in hl]
+        offs, acc = [], len(ext)
+        offs.append(acc)
+        for hl in holes:
+            acc += len(hl)
+            offs.append(acc)
+        good_call = len(calls) == 1 and calls[0]["vertices"].shape == (len(allv), 2) and calls[0]["rings"].shape == (len(offs),)
+        if good_call:
+            V, R = calls[0]["vertices"], calls[0]["rings"]
+            enc = sv_and(*[compare("==", V.data[i][c], allv[i][c]) for i in range(len(allv)) for c in (0, 1)], *[compare("==", R.data[i], offs[i]) for i in range(len(offs))])
+        else:
+            enc = False
+        eng.check(f"{oname}#ensures.polygon_is_handed_to_the_triangulator_ring_by_ring_exterior_first", enc)
+        if good_call:
+            idx = calls[0]["result"].data
+            k = len(idx) // 3
+            same = len(tris) == k and sv_and(*[compare("==", tris[j].fields["_tri"][i][c], select(allv, idx[3 * j + i], c)) for j in range(min(k, len(tris))) for i in range(3) for c in (0, 1)])
+        else:
+            same = False
+        eng.check(f"{oname}#ensures.triangles_lie_inside_the_polygon_and_tile_it(they_are_the_trusted_triangulation_of_it)", same)
+
+    def replay_t(inputs, clause):
+        import warnings
+
+        warnings.filterwarnings("ignore")
+        n, h = int(inputs.get("vertices", 4)), int(inputs.get("holes", 0))
+        for group, name, ext, holes in polygon_catalogue():
+            if len(ext) != n or bool(holes) != bool(h):
+                continue
+            r = check_real_polygon(ext, holes, samples=40)
+            for c in ("triangles_inside_the_polygon", "triangle_areas_sum_to_the_polygon_area"):
+                if r[c]:
+                    return f"triangulatePolygon({name} {ext}{' with holes ' + str(holes) if holes else ''}): {r[c]}"
+        return None
+
+    reg.add(
+        C.Contract(
+            f"{GEO}:triangulatePolygon",
+            params=dict(polygon=C.Const(None)),
+            setup=setup_t,
+            post=post_t,
+            raises=[C.Raises("RuntimeError", mode="may")],
+            inline_all=True,
+            replay=replay_t,
+            bounded=True,
+            note="relative to E-earcut (trusted); ring sizes 3..5 with 0..1 triangular hole, symbolic coordinates; the repository code around the kernel (ring assembly, offsets, index gathering, splitting, polygon construction) is interpreted",
+            properties=("C03",),
+        )
+    )
+
+    # ---------------------------------------------------------------- PolygonalRegion._samplingData
+    def tri_stub(I, polygon):
+        """triangulatePolygon at a call site: its contract above (triangles of the polygon, E-earcut): abstract triangles"""
+        eng = I.eng
+        k = polygon.fields.get("_ntris", 2)
+        tris = [MS.tri_geom(I, [(eng.fresh_real(f"{polygon.tag}.t{j}.v{i}.x"), eng.fresh_real(f"{polygon.tag}.t{j}.v{i}.y")) for i in range(3)]) for j in range(k)]
+        polygon.fields["_tris"] = tris
+        return PList(tris)
+
+    reg.models[f"{GEO}:triangulatePolygon"] = tri_stub
+    reg.trust("triangulatePolygon (call sites)", "at call sites triangulatePolygon returns the triangles of its contract (verified in this module relative to E-earcut): abstract triangles with symbolic vertices")
+
+    def setup_d(I, env):
+        eng = I.eng
+        A = mk_polygonal(I, "self")
+        npoly = 1 + eng.choose(2, "one or two polygons")
+        polys = []
+        for i in range(npoly):
+            p = MS.make_geom(I, "Polygon", empty=False, tag=f"poly{i}")
+            p.fields["_ntris"] = 1 + (i + eng.choose(2, f"poly{i}: one or two triangles")) % 2
+            polys.append(p)
+        A.fields["_polygons"].fields["geoms"] = PList(polys)
+        env.vars.update(self=A, _polys=polys)
+
+    def post_d(I, env, outcome):
+        eng = I.eng
+        oname = "regions.PolygonalRegion._samplingData"
+        if outcome[0] != "return":
+            return
+        res = outcome[1]
+        tris = [t for p in env.vars["_polys"] for t in p.fields.get("_tris", [])]
+        ok = isinstance(res, tuple) and len(res) == 2 and isinstance(res[0], tuple) and isinstance(res[1], tuple)
+        eng.check(f"{oname}#ensures.returns_triangles_with_bounds_and_cumulative_areas", ok)
+        if not ok:
+            return
+        tb, cum = res
+        eng.check(f"{oname}#ensures.every_polygon_is_triangulated_once", all("_tris" in p.fields for p in env.vars["_polys"]))
+        eng.check(f"{oname}#ensures.all_triangles_of_all_polygons_in_order_with_their_bounds", len(tb) == len(tris) and all(isinstance(e, tuple) and len(e) == 2 and e[0] is t and e[1] is t.fields["bounds"] for e, t in zip(tb, tris)))
+        pref, acc = [], 0
+        for t in tris:
+            acc = arith("+", acc, t.fields["area"])
+            pref.append(acc)
+        eng.check(f"{oname}#ensures.cumulative_weights_are_the_prefix_sums_of_the_triangle_areas", len(cum) == len(tris) and sv_and(*[compare("==", a, b) for a, b in zip(cum, pref)]))
+
+    reg.add(C.Contract(f"{RG}:PolygonalRegion._samplingData", params=dict(self=C.Const(None)), setup=setup_d, post=post_d, raises=[C.Raises("AssertionError", mode="may")], inline_all=True, bounded=True, note="bounded: 1..2 polygons of 1..2 triangles each (symbolic)", properties=("C03",)))
+
+    # ---------------------------------------------------------------- PolygonalRegion.uniformPointInner
+    def setup_u(I, env):
+        eng = I.eng
+        A = mk_polygonal(I, "self")
+        A.fields["orientation"] = None
+        k = 1 + eng.choose(3, "number of triangles")
+        tris = [MS.tri_geom(I, [(eng.fresh_real(f"t{j}.v{i}.x"), eng.fresh_real(f"t{j}.v{i}.y")) for i in range(3)]) for j in range(k)]
+        cum, acc = [], 0
+        for t in tris:
+            eng.assume(compare(">", t.fields["area"], 0))
+            acc = arith("+", acc, t.fields["area"])
+            cum.append(acc)
+        tb = tuple((t, t.fields["bounds"]) for t in tris)
+        A.fields["_samplingData"] = (tb, tuple(cum))
+        env.vars.update(self=A, _tb=tb, _cum=tuple(cum))
+
+    def post_u(I, env, outcome):
+        eng = I.eng
+        oname = "regions.PolygonalRegion.uniformPointInner"
+        if outcome[0] != "return":
+            return
+        A, res, tb, cum = env.vars["self"], outcome[1], env.vars["_tb"], env.vars["_cum"]
+        tr = eng.rng_trace
+        ok = len(tr) >= 3 and tr[0][0] == "choices" and all(t[0] == "uniform" for t in tr[1:]) and len(tr) % 2 == 1
+        eng.check(f"{oname}#rng.one_choices_then_pairs_of_uniform_draws", ok)
+        if not ok:
+            return
+        pop, cw = tr[0][1]
+        eng.check(f"{oname}#rng.triangle_drawn_with_the_cumulative_area_weights", len(pop) == len(tb) and all(a is b for a, b in zip(pop, tb)) and len(cw) == len(cum) and sv_and(*[compare("==", a, b) for a, b in zip(cw, cum)]))
+        chosen = [i for i in range(len(tb)) if not eng.feasible(tobool(sv_not(compare("==", tr[0][2], i))))]
+        eng.check(f"{oname}#rng.chosen_index_decided", len(chosen) == 1)
+        if len(chosen) != 1:
+            return
+        tri, (minx, miny, maxx, maxy) = tb[chosen[0]]
+        (ax, ay), (bx, by) = tr[-2][1], tr[-1][1]
+        eng.check(f"{oname}#rng.candidate_drawn_uniformly_in_the_bounding_box_of_the_chosen_triangle", sv_and(compare("==", ax, minx), compare("==", ay, maxx), compare("==", bx, miny), compare("==", by, maxy)))
+        x, y = tr[-2][2], tr[-1][2]
+        okv = isinstance(res, PObj) and "coordinates" in res.fields
+        eng.check(f"{oname}#ensures.returns_a_vector", okv)
+        if okv:
+            cx, cy, cz = coords(res)
+            eng.check(f"{oname}#ensures.point_is_the_accepted_candidate_at_the_height_of_the_region", sv_and(compare("==", cx, x), compare("==", cy, y), compare("==", cz, A.fields["z"])))
+            # in the closed triangle = a convex combination of its three vertices (the triangles tile the polygon: _samplingData)
+            eng.check(f"{oname}#ensures.point_is_a_convex_combination_of_the_vertices_of_the_chosen_triangle", MS.gmem(tri, cx, cy))
+
+    reg.add(
+        C.Contract(
+            f"{RG}:PolygonalRegion.uniformPointInner",
+            params=dict(self=C.Const(None)),
+            setup=setup_u,
+            post=post_u,
+            loops={1: dict(invariants={})},
+            inline_all=True,
+            bounded=True,
+            note="bounded: 1..3 triangles (symbolic vertices); the rejection loop is cut (an arbitrary iteration is verified): partial correctness, termination is almost sure only",
+            properties=("C03",),
+        )
+    )
+
+    # ---------------------------------------------------------------- BOUNDED stand-in: the real code on a catalogue of polygons
+    def setup_cat(I, env):
+        eng = I.eng
+        env.vars["polygon"] = MS.ring_polygon(I, [(eng.fresh_real(f"v{i}.x"), eng.fresh_real(f"v{i}.y")) for i in range(3)])
+
+    def post_cat(I, env, outcome):
+        import warnings
+
+        warnings.filterwarnings("ignore")
+        eng = I.eng
+        cat = polygon_catalogue()
+        groups = {}
+        for group, name, ext, holes in cat:
+            try:
+                r = check_real_polygon(ext, holes)
+            except Exception as e:  # the real code crashed on a catalogue polygon
+                r = {"triangles_inside_the_polygon": f"{type(e).__name__}: {e}"}
+            for c, text in r.items():
+                g = groups.setdefault((group, c), [0, None])
+                g[0] += 1
+                if text and g[1] is None:
+                    g[1] = f"{name}: exterior {ext}{', holes ' + str(holes) if holes else ''}: {text}"
+        for (group, c), (n, bad) in sorted(groups.items()):
+            if bad:
+                eng.input_syms.append(("polygon", C.Const(None), bad))
+            eng.check(f"standin.polygon_catalogue#{group}.{c}", bad is None, detail=bad or f"{n} polygons", kind="bounded")
+            if bad:
+                del eng.input_syms[-1:]
+        eng.check("standin.polygon_catalogue#catalogue_nonempty", len(cat) > 0, detail=f"{len(cat)} polygons", kind="bounded")
+
+    reg.add(
+        C.Contract(
+            f"{GEO}:triangulatePolygon",
+            params=dict(polygon=C.Const(None)),
+            setup=setup_cat,
+            post=post_cat,
+            raises=[C.Raises("RuntimeError", mode="may")],
+            inline_all=True,
+            bounded=True,
+            note="BOUNDED stand-in (never counted as proved): the REAL triangulatePolygon / PolygonalRegion._samplingData / uniformPointInner on a catalogue of polygons "
+            "(triangles, convex and concave quadrilaterals in every vertex rotation and both windings, larger concave polygons, polygons with holes), exact checks with shapely, 120 seeded draws each",
+            properties=("C03",),
+        ),
+        key=f"{GEO}:triangulatePolygon[catalogue]",
+    )
